@@ -372,17 +372,29 @@ DevReachable == ~(phase = "done" /\ conv # raw)          \* expected to be VIOLA
        at 1 KiB, 256 at 2 KiB, 512 at 4 KiB) and the group boundary, per-group bitmaps, so that the tables of the last
        group are the last mapped clusters;
    (b) integer-width boundaries: a position of the filesystem computed in a C type narrower than 64 bits (int, unsigned,
-       long on ILP32, __u32) changes sign at byte 2^31 and wraps at byte 2^32.  For every block size of WideBlockSizes the
-       universe holds one filesystem larger than 2^32 bytes with non-zero metadata in the block just below, at and just
-       above each of these byte offsets (WidthTargets); the layout trace requires the blocks to be mapped (Covers).
+       long on ILP32, __u32) changes sign at byte 2^31 and wraps at byte 2^32.  For every block size of Wide* the universe
+       holds filesystems larger than 2^32 bytes with non-zero metadata in the block just below, at and just above these
+       byte offsets (WidthTargets), of two kinds:
+         "dense"  every group has an initialised block bitmap (no uninit_bg): metadata all along the way, targets at both
+                  byte offsets;
+         "hole"   metadata_csum with uninitialised groups, metadata only in the first group and around byte 2^32: the image
+                  has a hole of at least 2^31 bytes between two consecutive imaged blocks (HoleMin).  The raw writer
+                  crosses holes with relative seeks whose distance it accumulates in an int (flushed every MiB), the
+                  reader of the qcow2 image and the reads of the sparse source cross the same distance.
+       The layout trace requires the source to realise this (Covers, CoversHole).
        Block NUMBERS 2^31 / 2^32 (a 2 TiB filesystem at 1 KiB blocks) and qcow2 FILE offsets 2^31 / 2^32 (2 GiB of imaged
        blocks) are not reached.                                                                                        *)
 SizesQuick == {<<1024, n>> : n \in {1280, 1281, 1343, 1407, 1408, 1409}} \cup {<<4096, n>> : n \in {2048, 2049, 2559, 2560, 2561}}
 SizesMore  == {<<1024, n>> : n \in {1100, 1151, 1152, 1153, 1279, 1344, 1345, 1535, 1536, 1537, 2047, 2048, 2049, 2175, 2176, 2177}}
               \cup {<<4096, n>> : n \in {2100, 2303, 2304, 2305, 3071, 3072, 3073}} \cup {<<2048, n>> : n \in {2048, 2303, 2304, 2305}}
 WidthBoundaryBits == {31, 32}
-WidthTargets(cb)  == {2 ^ (w - cb) + d : w \in WidthBoundaryBits, d \in {-1, 0, 1}}          \* block numbers, cluster size 2^cb
+TargetsAt(W, cb)  == {2 ^ (w - cb) + d : w \in W, d \in {-1, 0, 1}}                         \* block numbers, cluster size 2^cb
+WidthTargets(cb)  == TargetsAt(WidthBoundaryBits, cb)
 WideBlocks(cb)    == 2 ^ (32 - cb) + 2 ^ (32 - cb) \div 16                                   \* 4.25 GiB: two more groups beyond byte 2^32
+HoleMin(cb)       == 2 ^ (31 - cb)                                                           \* blocks of a hole of 2^31 bytes
+WideKinds         == {"dense", "hole"}
+WideTargets(kind, cb) == IF kind = "dense" THEN WidthTargets(cb) ELSE TargetsAt({32}, cb)
+WideHole(kind, cb)    == IF kind = "hole" THEN HoleMin(cb) ELSE 0
 WideQuick == {12}                                                                            \* log2 of the block sizes: 4 KiB
 WideMore  == {10}                                                                            \*                          1 KiB
 =============================================================================
